@@ -9,7 +9,7 @@
 //! Oracle (implementation only, the property's own statement): the history with the rejected source
 //! and the history without it are run on two copies; after the rejected source and after every probe
 //! the two interpreters must be in the same state and every probe must give the same result and
-//! output. For a line that fails while running (REPL style: compile, run, abort_run on failure) the
+//! output. For a line that fails while running (REPL style: compile, run, abort_run when run fails) the
 //! later lines must all succeed and must not print the failed line's marker again.
 use crate::canon;
 use crate::progen::{gen_program, GenCfg};
@@ -44,11 +44,14 @@ fn state_sig(xs: &mut Xstate) -> String {
 }
 
 #[derive(Clone)]
-pub enum Op { Eval(String), Compile(String), Run, Abort, Line(String) }
+pub enum Op { Eval(String), Compile(String), Run, Abort, Line(String), /// `set_recording_enabled(true)` (the REPL's -r)
+    Rec, /// k reverse steps (the REPL's /rnext)
+    Rnext(usize) }
 
 impl Op {
     pub fn text(&self) -> String {
-        match self { Op::Eval(s) => format!("eval `{}`", s), Op::Compile(s) => format!("compile `{}`", s), Op::Run => "run".into(), Op::Abort => "abort_run".into(), Op::Line(s) => format!("line `{}`", s) }
+        match self { Op::Eval(s) => format!("eval `{}`", s), Op::Compile(s) => format!("compile `{}`", s), Op::Run => "run".into(), Op::Abort => "abort_run".into(), Op::Line(s) => format!("line `{}`", s),
+            Op::Rec => "recording on".into(), Op::Rnext(k) => format!("rnext x{}", k) }
     }
     fn src(&self) -> Option<&str> {
         match self { Op::Eval(s) | Op::Compile(s) | Op::Line(s) => Some(s), _ => None }
@@ -71,6 +74,8 @@ pub fn apply(xs: &mut Xstate, op: &Op) -> String {
         Op::Compile(s) => res(crate::guarded(|| xs.compile(s)), true),
         Op::Run => res(crate::guarded(|| xs.run()), false),
         Op::Abort => { xs.abort_run(); "ok".into() }
+        Op::Rec => { xs.set_recording_enabled(true); "ok".into() }
+        Op::Rnext(k) => { for _ in 0..*k { let _ = crate::guarded(|| xs.rnext()); } "ok".into() }
         Op::Line(s) => {
             // what src/repl.rs run_line does
             let r = crate::guarded(|| xs.compile(s));
@@ -80,7 +85,8 @@ pub fn apply(xs: &mut Xstate, op: &Op) -> String {
                     if !matches!(r2, Some(Ok(()))) { xs.abort_run(); }
                     res(r2, false)
                 }
-                other => { xs.abort_run(); res(other, true) }
+                // a rejected line has been forgotten already: nothing is aborted (repair 1568e86)
+                other => res(other, true),
             }
         }
     }
@@ -111,7 +117,15 @@ const FAILING: &[&str] = &[
     "foo-unknown", "then", ";", "]", "}", "#)", "endcase", "loop", "repeat", "until", "else", "endof", "break", "9 var inside", "4 const k4",
     "! nosuch", "local lx", ":", "var", "const", "late", "#( 1 0 / #)", "#( drop #)", "#( a #)", "#( 5 ! a #)", "#( 1 var mv #)", "#( nosuch #)",
     "#( 1 2 + ) #)", "#( \"str\" 1 + #)", "#( : g 1 0 / ; g #)", "#( begin #)",
+    // `exit` run by a meta block stops the build like any other error (the stop request itself stays: see `unstop`)
+    "#( 7 exit #)", "#( 1 2 0 exit 3 #)", "#( : bye 3 exit ; bye #)",
 ];
+
+/// `exit` raises the interpreter's stop request, which a host polls; it is not part of what a rejected source must
+/// take back (the session model's `Twin` leaves it out as well), so it is masked where a rejected source says `exit`
+fn unstop(sig: String, src: &str) -> String {
+    if src.contains("exit") { sig.replace(" stop=true", " stop=false").replace(" stop=1", " stop=0") } else { sig }
+}
 
 const TRAILING: &[&str] = &["", "2 3", "\"tail\" print", ": never 1 ;", "99 var never-var", "drop drop drop", "then ; ]", "#( 1 #)", "1 0 /"];
 
@@ -141,6 +155,8 @@ fn op_code(op: &Op) -> Option<String> {
         Op::Line(s) => enc("l", s),
         Op::Run => Some("r".into()),
         Op::Abort => Some("a".into()),
+        // recording and reverse steps are not part of the session protocol: such a history goes to the oracle only
+        Op::Rec | Op::Rnext(_) => None,
     }
 }
 
@@ -178,11 +194,118 @@ fn styled(r: &mut Rng, style: usize, s: String) -> Vec<Op> {
     match style {
         0 => vec![Op::Eval(s)],
         1 => vec![Op::Line(s)],
-        _ => if r.bool() { vec![Op::Compile(s), Op::Run] } else { vec![Op::Eval(s)] },
+        // a host that drives compile + run itself abandons a program that failed while running, as the REPL does
+        // (`run` continues a paused program: without `abort_run` the next `run` would resume the failed one)
+        // (so it does after an `eval` that failed while running, when it goes on with compile + run: the failed
+        // source's context stays current, and the `run` after a later `compile` would continue it — DESIGN R8)
+        _ => if r.bool() { vec![Op::Compile(s), Op::Run, Op::Abort] } else { vec![Op::Eval(s), Op::Abort] },
     }
 }
 
+/// The REPL itself (src/repl.rs `run_line`, private to the binary): sessions of lines are piped into the real `xeh`
+/// binary built from the current tree (`VERIF_XEH_BIN`, set by the orchestrator) and into this file's mirror of
+/// `run_line` (`Op::Line`, `/next`, `/rnext` — the mirror is what the session model and the with/without oracle are
+/// run against); what the binary prints on stdout (program output, then the stack after every line) and the
+/// messages on stderr must be what the mirror predicts. A session with a rejected line must also print what the
+/// session without it prints, apart from that line's own error message and stack listing.
+fn repl_binary(ctx: &mut Ctx) {
+    let bin = match std::env::var("VERIF_XEH_BIN") { Ok(b) if !b.is_empty() => b, _ => { ctx.tag("repl-binary:not-built(skipped)"); return; } };
+    let dir = format!("{}-repl", ctx.scratch);
+    std::fs::create_dir_all(&dir).unwrap();
+    let sessions = if ctx.thorough { 300 } else { 40 };
+    const GOODL: &[&str] = &["1 2 3", "\"a\" println \"b\" println", ": sq dup * ; 4 sq", "10 var a a 1 + ! a a", "drop", "[ 1 2 ] { 3 4 }", "3 0 do I println loop", "depth",
+        "\"x\" print 5 6 + println", "#( 2 3 * #)", "|ff 01| 0xff ^hex", "1.5 nil true"];
+    const BADL: &[&str] = &["oops", "1 if 2", ": half 2 oops ;", "[ 1 2", "#( 1 0 / #)", "\"unterminated", "then", "1 2 nosuch 3 println"];
+    const FAILL: &[&str] = &["1 0 / \"never\" println", "nil 1 +", "drop drop drop drop drop drop drop drop drop drop drop drop drop drop drop drop drop drop drop drop", ": bad 1 0 / ; \"pre\" println bad \"post\" println", "3 0 do I 1 = if nil 1 + then I println loop"];
+    let run_bin = |lines: &[String], rec: bool| -> Option<(String, String)> {
+        use std::io::Write;
+        let mut cmd = std::process::Command::new(&bin);
+        if rec { cmd.arg("-r"); }
+        let mut child = cmd.current_dir(&dir).stdin(std::process::Stdio::piped()).stdout(std::process::Stdio::piped()).stderr(std::process::Stdio::piped()).spawn().ok()?;
+        {
+            let mut si = child.stdin.take()?;
+            let _ = si.write_all((lines.join("\n") + "\n").as_bytes());
+        }
+        let out = child.wait_with_output().ok()?;
+        Some((String::from_utf8_lossy(&out.stdout).to_string(), String::from_utf8_lossy(&out.stderr).to_string()))
+    };
+    // the mirror: what the binary is expected to print
+    let mirror = |lines: &[String], rec: bool| -> (String, String) {
+        let mut xs = Xstate::boot().unwrap();
+        xeh::d2_plugin::load(&mut xs).unwrap();
+        xs.intercept_stdout(true);
+        if rec { xs.set_recording_enabled(true); }
+        let mut out = String::from("# Trial and error mode!\n# Everyting is evaluating on-fly, hit Enter to freeze the changes.\n# Switch between modes using /repl and /trial commands.\n");
+        let mut err = String::new();
+        for l in lines {
+            let cmd = l.trim();
+            let res: Xresult = if cmd == "/next" { xs.next() } else if cmd == "/rnext" { xs.rnext() } else {
+                match xs.compile(l) {
+                    Ok(()) => { let r = xs.run(); if r.is_err() { xs.abort_run(); } r }
+                    Err(e) => Err(e),
+                }
+            };
+            out.push_str(&xs.read_stdout().unwrap_or_default());
+            if cmd != "/next" && cmd != "/rnext" {
+                let n = xs.data_depth();
+                for i in 0..n {
+                    if i > 15 { out.push_str("...\n"); break; }
+                    out.push_str(&xs.format_cell(xs.get_data(i).unwrap()).unwrap());
+                    out.push('\n');
+                }
+            }
+            if let Err(e) = &res {
+                err.push_str(&xs.pretty_error().unwrap_or_else(|| format!("{}", e)));
+                err.push('\n');
+            }
+            if xs.verif_dump().about_to_stop { err.push_str("BYE!\n"); return (out, err); }
+        }
+        err.push_str("CTRL-D\n");
+        (out, err)
+    };
+    for _ in 0..sessions {
+        let rec = ctx.rng.chance(60);
+        let mut lines: Vec<String> = Vec::new();
+        for _ in 0..(1 + ctx.rng.below(4)) { lines.push((*ctx.rng.pick(GOODL)).to_string()); }
+        if rec && ctx.rng.chance(70) { for _ in 0..(1 + ctx.rng.below(5)) { lines.push("/rnext".into()); } if ctx.rng.chance(30) { lines.push("/next".into()); } }
+        let at = lines.len();
+        let bad = if ctx.rng.chance(70) { (*ctx.rng.pick(BADL)).to_string() } else { (*ctx.rng.pick(FAILL)).to_string() };
+        let is_rejected = BADL.contains(&bad.as_str());
+        lines.push(bad.clone());
+        for _ in 0..(1 + ctx.rng.below(3)) {
+            lines.push(if ctx.rng.chance(20) && rec { "/rnext".to_string() } else { (*ctx.rng.pick(GOODL)).to_string() });
+        }
+        ctx.progress(&format!("xeh{} < {:?}", if rec { " -r" } else { "" }, lines));
+        let shown = format!("C10 repl-binary xeh{} with the lines {:?}", if rec { " -r" } else { "" }, lines);
+        match run_bin(&lines, rec) {
+            None => { ctx.oracle_fail(shown, "the binary runs".into(), "could not be started / did not finish".into()); continue; }
+            Some((o, e)) => {
+                let (mo, me) = mirror(&lines, rec);
+                ctx.check(o == mo && e == me, || shown.clone(), || format!("stdout {:?} stderr {:?}", mo, me), || format!("stdout {:?} stderr {:?}", o, e));
+                if is_rejected {
+                    // the same session without the rejected line: stdout is the same once that line's own stack listing
+                    // is taken out (it lists the stack as it was, nothing else)
+                    let mut without = lines.clone();
+                    without.remove(at);
+                    if let Some((o2, _)) = run_bin(&without, rec) {
+                        let (before, _) = mirror(&lines[..at].to_vec(), rec);
+                        let (upto, _) = mirror(&lines[..at + 1].to_vec(), rec);
+                        let listing = upto[before.len().min(upto.len())..].to_string();
+                        let expect = format!("{}{}{}", &o2[..before.len().min(o2.len())], listing, &o2[before.len().min(o2.len())..]);
+                        ctx.check(o == expect, || format!("{} — against the session without line {}", shown, at + 1), || format!("{:?}", expect), || format!("{:?}", o));
+                    }
+                    ctx.tag("repl-binary:rejected-line");
+                } else {
+                    ctx.tag("repl-binary:failing-line");
+                }
+            }
+        }
+    }
+    let _ = std::fs::remove_dir_all(&dir);
+}
+
 pub fn run(ctx: &mut Ctx) {
+    repl_binary(ctx);
     let cfg = GenCfg { endless: false, malformed_percent: 0, max_depth: 2, max_stmts: 3, ..GenCfg::default() };
     for _ in 0..ctx.n {
         let style = ctx.rng.below(3);
@@ -286,6 +409,37 @@ pub fn run(ctx: &mut Ctx) {
             rejected_src = format!("{} {}", vec!["bump"; n].join(" "), rejected_src);
             extra_probe = Some("uv".to_string());
         }
+        let mut skip_corr = false;
+        if finding_tag.is_empty() && ctx.rng.chance(5) {
+            // a late-bound word that a user-defined immediate word resolves while a source is read: the definition it
+            // finds may belong to a source that is rejected afterwards, so the binding is for that execution only
+            // (repair 50bcb7c; user-defined immediate words are outside the session model: oracle only)
+            ctx.tag("kind:late-bound-through-immediate");
+            skip_corr = true;
+            pre.extend(styled(&mut ctx.rng, style, "late helper : imm helper immediate ;".to_string()));
+            let k = ctx.rng.range(10, 99);
+            rejected_src = format!(": helper {} ; imm {}", k, rejected_src);
+            extra_probe = Some(format!("1 2 3 : helper {} ; imm helper", k + 1));
+        } else if finding_tag.is_empty() && ctx.rng.chance(4) {
+            // the same root cause as [user-immediate-writes]: the immediate word runs on the source's own stack floor
+            ctx.tag("kind:user-immediate-pops");
+            finding_tag = "[user-immediate-writes] ";
+            pre.extend(styled(&mut ctx.rng, style, "11 22 : dd drop immediate ;".to_string()));
+            rejected_src = format!("dd dd {}", rejected_src);
+            extra_probe = Some("depth".to_string());
+        }
+        if ctx.rng.chance(8) {
+            // the REPL with -r: a program that printed something is stepped back with /rnext and is paused in the middle
+            // when the rejected source arrives; forgetting that source must leave the paused program where it is (repair
+            // 1568e86: run_line used to abort after a rejected line too, skipping the instructions not yet re-run)
+            ctx.tag("kind:rejected-while-stepped-back");
+            skip_corr = true;
+            pre.insert(0, Op::Rec);
+            let m = ctx.rng.range(1, 4);
+            let prog = format!("\"pa{}\" println \"pb{}\" println \"pc{}\" println", m, m, m);
+            pre.extend(styled(&mut ctx.rng, style, prog));
+            pre.push(Op::Rnext(1 + ctx.rng.below(6)));
+        }
         let bad = match style { 0 => Op::Eval(rejected_src.clone()), 1 => Op::Line(rejected_src.clone()), _ => if ctx.rng.bool() { Op::Compile(rejected_src.clone()) } else { Op::Eval(rejected_src.clone()) } };
         let nprobes = ctx.rng.below(4) + 1;
         let mut probes: Vec<Op> = Vec::new();
@@ -301,7 +455,7 @@ pub fn run(ctx: &mut Ctx) {
         ops.extend(probes.iter().cloned());
         // files are outside the session model: these histories go to the with/without oracle only
         // (so are user-defined immediate words)
-        if !with_files && finding_tag.is_empty() { correspondence(ctx, "C10", &ops); }
+        if !with_files && finding_tag.is_empty() && !skip_corr { correspondence(ctx, "C10", &ops); }
         // oracle: with vs without the rejected source
         let mut with = fresh();
         let mut without = fresh();
@@ -320,8 +474,7 @@ pub fn run(ctx: &mut Ctx) {
         }
         ctx.tag("kind:rejected");
         for o in OPENERS { if !o.is_empty() && rejected_src.contains(o) { ctx.tag(&format!("open:{}", o)); } }
-        if style == 1 { without.abort_run(); }
-        let (a, b) = (state_sig(&mut with), state_sig(&mut without));
+        let (a, b) = (unstop(state_sig(&mut with), &rejected_src), unstop(state_sig(&mut without), &rejected_src));
         ctx.check(a == b, || format!("{}C10 after-rejected {}", finding_tag, hist()), || b.clone(), || a.clone());
         for p in &probes {
             let (o1, o2) = (with.stdout().map(|s| s.len()).unwrap_or(0), without.stdout().map(|s| s.len()).unwrap_or(0));
@@ -330,7 +483,7 @@ pub fn run(ctx: &mut Ctx) {
             if r1.contains("insn_limit_reached") || r2.contains("insn_limit_reached") { ctx.tag("probe:exhausted-the-instruction-budget"); break; }
             let out1 = with.stdout().map(|s| s[o1..].to_string()).unwrap_or_default();
             let out2 = without.stdout().map(|s| s[o2..].to_string()).unwrap_or_default();
-            let (a, b) = (state_sig(&mut with), state_sig(&mut without));
+            let (a, b) = (unstop(state_sig(&mut with), &rejected_src), unstop(state_sig(&mut without), &rejected_src));
             ctx.check(r1 == r2 && out1 == out2 && a == b, || format!("{}C10 probe {} after {}", finding_tag, p.text(), hist()),
                 || format!("{} out={:?} {}", r2, out2, b), || format!("{} out={:?} {}", r1, out1, a));
         }
